@@ -156,6 +156,13 @@ def arms_for(rm, cls, variants, dvar, value):
     return out
 
 
+def _about_law(cond) -> bool:
+    """residual path conditions that select a sub-law (coefficient is zero / who is self-shielded) rather than the dispatch arm"""
+    if coeff_assumption(cond, True) is not None:
+        return True
+    return cond[0] == "cmp" and cond[1][0] in ("In", "NotIn") and "name" in show(cond)
+
+
 def variant_text(v):
     """C text of a variant with coefficient holes named; other holes get descriptive placeholders."""
     txt = v.text
@@ -299,6 +306,13 @@ def _r2_r3(ctx, rm, pkg, allv):
             where = (arms[0][0].file, arms[0][0].line) if arms else (ci.file, 0)
             if not arms:
                 ctx.bad("R2", key, where, "no arm of rateexpr is reachable for this code")
+                continue
+            # a dispatch condition that could not be evaluated for this code (a table / helper the analysis does not see through)
+            # leaves arms of several kinds "reachable": that is not evidence about the code
+            open_ = sorted({show(c)[:70] for _, extra in arms for c, _p in extra if not _about_law(c)})
+            want_kind = {"RAISE": {"raise"}, "GRAIN": {"delegate"}}.get(ref if isinstance(ref, str) else "", None if ref == "UNIMPLEMENTED" else {"text"})
+            if open_ and want_kind is not None and kinds != want_kind:
+                ctx.unrec("R2", key, where, f"cannot decide which arm of rateexpr this code takes: condition(s) {open_} are not understood (arms found: {sorted(kinds)})")
                 continue
             if ref == "RAISE":
                 ctx.check(kinds == {"raise"}, "R2", key, where, "this code is refused with an explicit error", expected="raise", found=str(sorted(kinds)))
